@@ -6,15 +6,17 @@
 (* messages the service must send and the store it must hold.               *)
 EXTENDS Sync, Json, SequencesExt
 
-CONSTANTS H, F, ForkAt, CpHs, MaxEnv, Emit, MaxConnects, MaxRestarts, MaxAsks, MaxRaw, Scenario
+CONSTANTS H, F, ForkAt, F2, ForkAt2, CpHs, MaxEnv, Emit, MaxConnects, MaxRestarts, MaxAsks, MaxRaw, Scenario
 
-ParV == [b \in 1 .. (H + F) |-> IF b <= H THEN b - 1 ELSE IF b = H + 1 THEN ForkAt ELSE b - 1]
+\* honest chain 1..H; a branch H+1..H+F leaving it after height ForkAt; optionally a second branch H+F+1..H+F+F2 after ForkAt2
+ParV == [b \in 1 .. (H + F + F2) |-> IF b <= H THEN b - 1 ELSE IF b = H + 1 THEN ForkAt
+                                       ELSE IF b <= H + F THEN b - 1 ELSE IF b = H + F + 1 THEN ForkAt2 ELSE b - 1]
 CpsV == {h \in CpHs : h <= H}        \* checkpoints are honest-chain blocks (block id = height on the honest chain)
 
 VARIABLES hist, nenv, knownOnly, dropped     \* dropped: an inv was dropped by handleInvMsg's "not the sync peer and not current" rule
 msyvars == <<syvars, hist, nenv, dropped, knownOnly>>   \* knownOnly: a headers reply brought no new longest-chain header ("do nothing")
 
-NB == H + F
+NB == H + F + F2
 StV == [k \in 1 .. (NB + 1) |-> IF (k - 1) \in DOMAIN rows' THEN rows'[k - 1].st ELSE "-"]
 BestOff == LET off == {nd'[p].best : p \in {q \in Peers : nd'[q].conn}} IN
              IF off = {} THEN -1 ELSE CHOOSE b \in off : \A c \in off : HOf(c) <= HOf(b)
